@@ -2,6 +2,7 @@ package props
 
 import (
 	"fmt"
+	"go/token"
 	"go/types"
 	"strings"
 
@@ -483,6 +484,7 @@ func checkKeyFetcherPool(c *fw.Ctx) {
 		c.Undecided(rule, "worker closure", "no closure calling WaitGroup.Done found")
 		return
 	}
+	checkWorkerStays(c, rule, worker)
 	// the worker is what `go` starts
 	goes := 0
 	for _, call := range fw.Calls(fn) {
@@ -783,4 +785,96 @@ func acquiresOnRecv(fn *ssa.Function, depth int, seen map[*ssa.Function]bool) ma
 		}
 	}
 	return out
+}
+
+// checkWorkerStays: a worker leaves its receive loop only when the queue is exhausted (or for a
+// reason that does not depend on the job it just took: the batch context). A return taken on
+// the outcome of one job abandons the jobs still queued - the queue is filled and closed up
+// front, so nobody else will take them - and the batch result is no longer the union of the
+// per-server results.
+func checkWorkerStays(c *fw.Ctx, rule string, worker *ssa.Function) {
+	construct := "a worker leaves the queue only when it is exhausted"
+	var recv *ssa.UnOp
+	for _, b := range worker.Blocks {
+		for _, ins := range b.Instrs {
+			if u, ok := ins.(*ssa.UnOp); ok && u.Op == token.ARROW && u.CommaOk {
+				recv = u
+			}
+		}
+	}
+	if recv == nil {
+		c.Undecided(rule, construct, "no receive loop (`for job := range queue`) recognised in the worker")
+		return
+	}
+	header := recv.Block()
+	// the loop body: what is reachable from the header's successors without coming back
+	// through the header, restricted to blocks from which the header is reachable again
+	back := map[fw.Edge]bool{}
+	for _, p := range header.Preds {
+		back[fw.Edge{From: p, To: header}] = true
+	}
+	inBody := map[*ssa.BasicBlock]bool{}
+	for _, sblk := range header.Succs {
+		for b := range fw.ReachableFrom(sblk, back) {
+			if b != header && fw.ReachableFrom(b, nil)[header] {
+				inBody[b] = true
+			}
+		}
+	}
+	item := ""
+	for _, ref := range *recv.Referrers() {
+		if ex, ok := ref.(*ssa.Extract); ok && ex.Index == 0 {
+			item = fw.Sig(ex)
+		}
+	}
+	verdict, detail, pos := "ok", "", ""
+	for _, r := range fw.Returns(worker) {
+		// an early leave: the return is entered from inside the body
+		var from []*ssa.BasicBlock
+		seen := map[*ssa.BasicBlock]bool{}
+		var walk func(b *ssa.BasicBlock)
+		walk = func(b *ssa.BasicBlock) {
+			if seen[b] {
+				return
+			}
+			seen[b] = true
+			for _, p := range b.Preds {
+				if inBody[p] {
+					from = append(from, p)
+				} else if p != header {
+					walk(p)
+				}
+			}
+		}
+		walk(r.Block())
+		if len(from) == 0 {
+			continue
+		}
+		perItem, other := "", ""
+		for _, f := range fw.DomConds(r.Block()) {
+			if !inBody[f.If.Block()] {
+				continue
+			}
+			sg := f.String()
+			if item != "" && strings.Contains(sg, item) {
+				perItem = sg
+			} else if !strings.Contains(sg, "context.Context).Err(") && !strings.Contains(sg, "context.Context).Done(") {
+				other = sg
+			}
+		}
+		switch {
+		case perItem != "":
+			verdict, detail, pos = "fail", "the worker returns from inside its receive loop under "+perItem+", a condition on the job it just took: the jobs still in the (already closed) queue are never fetched by this worker, and once every worker has left the batch silently lacks their keys", c.P.Pos(fw.InstrPos(r))
+		case other != "" && verdict != "fail":
+			verdict, detail = "undecided", "the worker can return from inside its receive loop under "+other
+		}
+	}
+	switch verdict {
+	case "fail":
+		c.Fail(rule, construct, pos, detail)
+	case "undecided":
+		c.Undecided(rule, construct, detail)
+	default:
+		c.Ok(rule, construct, c.P.Pos(worker.Pos()), "")
+	}
 }
